@@ -240,6 +240,40 @@ Theorem C03_mem_invariant_eigensolve_adjoint_solvers :
 Proof. exact (@eigadj_scc). Qed.
 Print Assumptions C03_mem_invariant_eigensolve_adjoint_solvers.
 
+(* LinSolve's detections with LDAWrapper.update: the VALUE KIND (iscomplex, read by _sensitivity: dmat.real for a real
+   matrix) and the SPARSITY PATTERN (LDAWrapper's partition in decoupled / coupled dofs, through which every solve goes)
+   are detected at EVERY response, only the class (Hermitian / symmetric flags, solver chosen from them) at the first.
+   For a constant class the module is cache-correct whatever sequence of real / complex matrices and of patterns with
+   decoupled dofs appearing, disappearing or moving it sees ... *)
+Theorem C03_mem_invariant_linsolve_detections :
+  forall (K C P : Type) (cls_of : list K -> C) (is_cplx : list K -> bool) (part_of : list K -> P)
+         (solve_with : C -> P -> list K -> bool -> list K -> list K) (dmat_of : bool -> list K -> list K -> list K)
+         (db_of : list K -> list K -> list K) (c0 : C),
+    (forall A, cls_of A = c0) ->
+    forall (ins : list ref) (out : nat),
+      cache_correct (det_linsolve_h C P cls_of is_cplx part_of solve_with dmat_of db_of ins out) (d_init C P)
+                    (det_good C P is_cplx part_of solve_with c0) (det_f C P cls_of part_of solve_with)
+                    (det_g C P cls_of is_cplx part_of solve_with dmat_of db_of).
+Proof. exact (@det_linsolve_cache_correct). Qed.
+Print Assumptions C03_mem_invariant_linsolve_detections.
+
+(* ... and at the level of one module fed A_1, A_2, ... from ANY earlier state s: the value kind and the partition it holds
+   after the k-th response are those of A_k (no class hypothesis needed) *)
+Theorem C03_linsolve_detections_follow_latest_matrix :
+  forall (K C P : Type) (cls_of : list K -> C) (is_cplx : list K -> bool) (part_of : list K -> P)
+         (As : list (list K)) (s : dstate C P),
+    det_trace C P cls_of is_cplx part_of s As = map (fun A => (is_cplx A, Some (part_of A))) As.
+Proof. exact (@det_trace_fresh). Qed.
+Print Assumptions C03_linsolve_detections_follow_latest_matrix.
+
+(* non-vacuity (tag instance evaluated by the bookkeeping correspondence; get_diagonal_indices as written): real matrix with
+   dof 0 decoupled, complex fully coupled matrix of the same shape, real matrix with dof 2 decoupled *)
+Example C03_detections_nonvacuous :
+  tag_det_trace [[0; 3;  1;0;0; 0;1;1; 0;1;1]; [1; 3;  1;1;0; 1;1;1; 0;1;1]; [0; 3;  1;1;0; 1;1;0; 0;0;1]]%Z
+  = [[0; 0]; [1]; [0; 2]]%Z.
+Proof. exact detections_nonvacuous. Qed.
+Print Assumptions C03_detections_nonvacuous.
+
 (* non-vacuity of the two memories (tag instances, the ones the bookkeeping correspondence of tools/checks/C03.py
    evaluates): the memories really hold STALE entries.  Adjoint solvers, 3 modes: response 1; pass seeding mode 0;
    response 2; pass seeding modes 1, 2 (mode 0 still holds [1; 0], the factorisation of response 1); pass seeding
@@ -251,7 +285,8 @@ Example C03_memories_nonvacuous :
 Proof. exact memories_nonvacuous. Qed.
 Print Assumptions C03_memories_nonvacuous.
 
-(* Why "the matrix class is constant within a history" is assumed (agreed scope; LinearSolver.update documents "a new
+(* Why "the matrix class (storage, symmetric / Hermitian or not, size -- NOT the value kind real / complex and NOT the
+   sparsity pattern, see above) is constant within a history" is assumed (agreed scope; LinearSolver.update documents "a new
    matrix of the same structure"): LinSolve keeps `ishermitian` and the solver chosen from it from its FIRST matrix.
    In the 2x2 integer instance a symmetric matrix followed by the non-symmetric [[1,2],[0,1]] with b = [3,1] is
    answered [3,1] (lower triangle only) where a fresh module answers [1,1]. *)
